@@ -179,6 +179,12 @@ SCENARIOS = {
                      {"do": "await", "thread": "A", "point": "wuwx.afterread"}, {"do": "run", "line": 'wtx c0 k exp=0 cas=0 x._sync={"t":1} x.usr={"q":9}'},
                      {"do": "release", "thread": "A"}, {"do": "join", "thread": "A"}],
              observe=["rb c0 k " + N]),
+        dict(name="update-vs-touch-between-its-read-and-its-write", setup=kv_setup(),
+             threads={"A": 'update c0 k exp=0 cb=set:{"u":1}'},
+             script=[{"do": "park", "thread": "A", "point": "update.afterread"}, {"do": "spawn", "thread": "A", "line": 'update c0 k exp=0 cb=set:{"u":1}'},
+                     {"do": "await", "thread": "A", "point": "update.afterread"}, {"do": "run", "line": "touch c0 k exp=1800000500"},
+                     {"do": "release", "thread": "A"}, {"do": "join", "thread": "A"}],
+             observe=["rb c0 k " + N]),
         # calls overtaken between what they read before their transaction and the transaction itself (txn.enter: before the bucket mutex)
         dict(name="set-preserving-expiry-overtaken-by-a-set-with-expiry", setup=kv_setup(),
              threads={"A": 'set c0 k exp=0 pe=1 raw=0 v={"p":1}'},
@@ -320,6 +326,7 @@ def run_property(pid, log):
 
 # C18 (sub-document writes preserve the other properties, also against a concurrent writer) reuses the sub-document schedules of C03
 SCENARIOS["C18"] = [sc for sc in SCENARIOS["C03"] if sc["name"].startswith("subdoc")]
+SCENARIOS["C17"] = [sc for sc in SCENARIOS["C03"] if sc["name"] == "update-vs-touch-between-its-read-and-its-write"]
 SCENARIOS["C02"] = [sc for sc in SCENARIOS["C03"] if sc["name"] == "two-setwithmeta-on-the-same-version"]
 
 
